@@ -15,9 +15,12 @@
 (***************************************************************************)
 EXTENDS Integers
 
-CONSTANT
+CONSTANTS
   \* @type: Int;
-  Local
+  Local,
+  \* the largest Receive Maximum a CONNACK may carry (65535; the bounded instance in MC_flow uses Cap)
+  \* @type: Int;
+  RMax
 
 VARIABLES
   \* @type: Int;
@@ -27,7 +30,10 @@ VARIABLES
   \* @type: Int;
   quota,
   \* @type: Int;
-  maxq
+  maxq,
+  \* a connection is active (CONNACK accepted, no disconnect seen since)
+  \* @type: Bool;
+  live
 
 Min(a, b) == IF a < b THEN a ELSE b
 Sat(a) == IF a < 0 THEN 0 ELSE a
@@ -35,42 +41,49 @@ Unres == ret + rel
 \* release_send_quota(unresolved) after the entry has been removed
 Release(u) == Min(quota + 1, Sat(maxq - u))
 
-ConstInit == Local \in 1..16
+ConstInit == Local \in 1..16 /\ RMax = 65535
 
-Init == ret = 0 /\ rel = 0 /\ quota = Local /\ maxq = Local
+Init == ret = 0 /\ rel = 0 /\ quota = Local /\ maxq = Local /\ live = FALSE
 
 \* publish QoS 1/2 accepted: a slot, quota available
 Publish ==
-  /\ quota > 0 /\ ret + 1 <= Local
-  /\ ret' = ret + 1 /\ quota' = quota - 1 /\ UNCHANGED << rel, maxq >>
+  /\ live /\ quota > 0 /\ ret + 1 <= Local
+  /\ ret' = ret + 1 /\ quota' = quota - 1 /\ UNCHANGED << rel, maxq, live >>
 \* PUBACK, or PUBREC with a failure code: the exchange ends
 AckEnd ==
-  /\ ret > 0
-  /\ ret' = ret - 1 /\ quota' = Release(ret - 1 + rel) /\ UNCHANGED << rel, maxq >>
+  /\ live /\ ret > 0
+  /\ ret' = ret - 1 /\ quota' = Release(ret - 1 + rel) /\ UNCHANGED << rel, maxq, live >>
 \* successful PUBREC: the exchange moves on, the quota stays taken
 PubRec ==
-  /\ ret > 0 /\ rel + 1 <= Local
-  /\ ret' = ret - 1 /\ rel' = rel + 1 /\ UNCHANGED << quota, maxq >>
+  /\ live /\ ret > 0 /\ rel + 1 <= Local
+  /\ ret' = ret - 1 /\ rel' = rel + 1 /\ UNCHANGED << quota, maxq, live >>
 PubComp ==
-  /\ rel > 0
-  /\ rel' = rel - 1 /\ quota' = Release(ret + rel - 1) /\ UNCHANGED << ret, maxq >>
+  /\ live /\ rel > 0
+  /\ rel' = rel - 1 /\ quota' = Release(ret + rel - 1) /\ UNCHANGED << ret, maxq, live >>
 \* CONNACK with session present: Receive Maximum rm (any value >= 1), everything unresolved is replayed
 Resume ==
-  \E rm \in 1..65535 :
+  \E rm \in 1..RMax :
+    /\ ~live /\ live' = TRUE
     /\ maxq' = Min(rm, Local) /\ quota' = Sat(Min(rm, Local) - Unres) /\ UNCHANGED << ret, rel >>
 \* CONNACK without session: local state is discarded first
 Fresh ==
-  \E rm \in 1..65535 :
+  \E rm \in 1..RMax :
+    /\ ~live /\ live' = TRUE
     /\ ret' = 0 /\ rel' = 0 /\ maxq' = Min(rm, Local) /\ quota' = Min(rm, Local)
+\* the connection ends (the counters keep their values until the next CONNACK)
+Drop == live /\ live' = FALSE /\ UNCHANGED << ret, rel, quota, maxq >>
+\* a success CONNACK without session whose properties are refused: local state is discarded, nothing
+\* is activated
+Refused == ~live /\ ret' = 0 /\ rel' = 0 /\ UNCHANGED << quota, maxq, live >>
 
-Next == Publish \/ AckEnd \/ PubRec \/ PubComp \/ Resume \/ Fresh
+Next == Publish \/ AckEnd \/ PubRec \/ PubComp \/ Resume \/ Fresh \/ Drop \/ Refused
 
 \* the window is never exceeded by new publishes and never under-used
 Usable == quota = Sat(maxq - Unres)
 TypeOK == ret >= 0 /\ rel >= 0 /\ quota >= 0 /\ maxq >= 1 /\ maxq <= Local /\ ret <= Local /\ rel <= Local
-IndInv == TypeOK /\ Usable
+IndInv == TypeOK /\ (live => Usable)
 \* a new publish is accepted only inside the window (C06), and refused only when it is full (C12 / C17)
-Window == (quota > 0) <=> (Unres < maxq)
+Window == live => ((quota > 0) <=> (Unres < maxq))
 
-IndInit == ret \in Nat /\ rel \in Nat /\ quota \in Nat /\ maxq \in Nat /\ IndInv
+IndInit == ret \in Nat /\ rel \in Nat /\ quota \in Nat /\ maxq \in Nat /\ live \in BOOLEAN /\ IndInv
 =============================================================================
